@@ -26,6 +26,12 @@ CHECKS = {
  "C02": dict(technique="TLA+ I-spec RWLockGeneral (one action per critical section of prwlock-general.c, chosen-waiter signal, spurious wake-ups) refines P-spec LockAbs, deadlock-free and terminating under weak fairness (TLC); every edge of the bounded graph replayed on the unmodified prwlock-general.c under a deterministic virtual scheduler with state and enabled-thread comparison; seeded random virtual schedules with deadlock detection; real-thread histories of both models checked for linearizability by TLC (LockLin)",
              text="For the portable model the schedule quantifier is discharged exhaustively for the bounded configurations: TLC explores all interleavings incl. spurious wake-ups and the harness drives the real C code through every transition, comparing counters, wait sets and thread states; lost wake-ups show up as a deadlock of the virtual threads. The native model and the general model under real pthreads are validated through recorded histories.",
              design_ref="3 C02", note="Trusted: " + TB + "; the virtual p_mutex/p_cond_variable implement the CondVar semantics of C03; ucontext coroutines."),
+ "C03": dict(technique="TLA+ P-spec CondVar (atomic release-and-block, woken/waiting sets, spurious wake-ups) and client spec BoundedBuffer model-checked by TLC incl. liveness (the non-atomic variant must fail); real-thread producer/consumer and wake-up scenarios recorded and validated by TLC (CondLin) incl. watchdog Stuck events",
+             text="TLC proves that predicate-loop producers/consumers over the CondVar semantics always complete and that a non-atomic release-then-block loses wake-ups; recorded histories of the real PCondVariable/PMutex must be behaviours of CondVar: data accesses only by the mutex owner (so wait returned owning the mutex), and a thread still blocked after N signals to N waiters or after a broadcast has no explanation in the spec.",
+             design_ref="3 C03", note="Trusted: " + TB + "; 10 s watchdog in microsecond scenarios, confirmed by a second execution."),
+ "C04": dict(technique="TLA+ P-spec Atomics over limb words (Words.tla) with one indivisible Lin step per operation; TLC checks all interleavings on a tiny word and rejects load/store-split variants; sequential boundary-operand scripts and concurrent mixes on the c11, sync and sim builds validated for linearizability by TLC (AtomicsLin)",
+             text="Every recorded operation (operands, returned old value / boolean) must be explained by some sequential order of indivisible operations computing exactly the wrapping C expression on a 32-bit / pointer-width word; operand classes cover sign and wrap-around boundaries for every operation; tickets, per-thread bits and count-downs make lost updates visible.",
+             design_ref="3 C04", note="Trusted: " + TB + "; barrier strength beyond x86-64 TSO is not observable."),
 }
 NA = {
  "C17": "pure encode/decode fidelity against the platform's inet_pton/inet_ntop over all addresses: no state, transitions or histories for a TLA+ specification to constrain (DESIGN.md section 5)",
